@@ -69,6 +69,10 @@ def gen_probe_project(rng, binp, tries=40, opts=None):
                 words = ["zero", "one", "two", "three", "four", "five", "six", "seven", "eight", "nine", "ten", "eleven", "twelve", "thirteen", "fourteen", "fifteen", "sixteen"]
                 tree["o"].append(["ov18", proj.A(["u8"] + [proj.A([f"[{l}] {w}" if k != 16 else f"<b>[{l}] {w}</b>", proj.U(k)]) for k, w in enumerate(words)]
                                                 + [proj.A([f"[{l}] {{{{ count }}}}"])])])
+        if o.get("blank_keys", True):
+            # interpolations separated by nothing but blanks, blank-only component bodies
+            for (ns, l), tree in p["files"].items():
+                tree["o"].append(["blanks", f"{{{{ a }}}} {{{{ b }}}}<b> </b>[{l}]<i>{{{{ a }}}}</i>  {{{{ b }}}} "])
         if o.get("ordinal_key", True):
             # an ordinal and a cardinal plural with every form, in every locale (string and view back-ends must use the key's rule type)
             for (ns, l), tree in p["files"].items():
